@@ -23,6 +23,10 @@ type Solver struct {
 	Unknowns int
 	depth    int
 	log      io.Writer // optional transcript
+	// timeoutMs is the per-query soft timeout the process was started with; Retried counts the
+	// queries answered only at the second attempt (six times that timeout)
+	timeoutMs int
+	Retried   int
 }
 
 func NewSolver(kind string, timeoutMs int) (*Solver, error) {
@@ -50,7 +54,7 @@ func NewSolver(kind string, timeoutMs int) (*Solver, error) {
 	if err := cmd.Start(); err != nil {
 		return nil, err
 	}
-	s := &Solver{Name: kind, cmd: cmd, in: in, out: bufio.NewReaderSize(outp, 1<<16)}
+	s := &Solver{Name: kind, cmd: cmd, in: in, out: bufio.NewReaderSize(outp, 1<<16), timeoutMs: timeoutMs}
 	if kind == "cvc5" {
 		s.send("(set-logic ALL)")
 	}
@@ -110,7 +114,24 @@ func (s *Solver) readLine() string {
 }
 
 // Check returns "sat", "unsat" or "unknown" (errors are reported as unknown and recorded).
+// A z3 "unknown" without error is a soft timeout (wall clock: a starved process on a loaded
+// machine hits it on queries that normally take milliseconds): the query is asked once more with
+// six times the timeout before the answer is accepted as unknown.
 func (s *Solver) Check() string {
+	r := s.check1()
+	if r == "unknown" && len(s.Errors) == 0 && strings.HasPrefix(s.Name, "z3") && s.timeoutMs > 0 {
+		s.send(fmt.Sprintf("(set-option :timeout %d)", 6*s.timeoutMs))
+		r = s.check1()
+		s.send(fmt.Sprintf("(set-option :timeout %d)", s.timeoutMs))
+		if r != "unknown" {
+			s.Retried++
+			s.Unknowns--
+		}
+	}
+	return r
+}
+
+func (s *Solver) check1() string {
 	t0 := time.Now()
 	s.send("(check-sat)")
 	var res string
